@@ -37,10 +37,12 @@ struct config_t
     int         grid  = 0;
     int         scale = 0; ///< 0 linear, 1 log10
     int         max_evals = 10;
+    int         alphabet = 0; ///< value alphabet: 0 {0,1,2}; 1 {0,1e-17,2e-17}; 2 {1, 1+eps, 1+2eps} (distinct values a few ulps apart)
     bool        thorough = false;
     std::string str() const
     {
-        return tuner + ":" + std::to_string(grid) + ":" + std::to_string(scale) + ":" + std::to_string(max_evals);
+        return tuner + ":" + std::to_string(grid) + ":" + std::to_string(scale) + ":" + std::to_string(max_evals) + ":" +
+               std::to_string(alphabet);
     }
 };
 
@@ -60,6 +62,16 @@ param_spaces_t make_spaces(const config_t& k, const grid_t& g)
                             values);
     }
     return spaces;
+}
+
+double alphabet_value(const int alphabet, const int k)
+{
+    switch (alphabet)
+    {
+    case 1: return 1e-17 * static_cast<double>(k);
+    case 2: return 1.0 + std::numeric_limits<double>::epsilon() * static_cast<double>(k);
+    default: return static_cast<double>(k);
+    }
 }
 
 struct run_t
@@ -111,7 +123,7 @@ void execute(const config_t& k, mc::chooser_t& ch, run_t& out, const int poison_
                 out.repeated = true;
             }
             const auto   n = static_cast<int>(out.evaluated.size());
-            const double v = (n == poison_at) ? poison : static_cast<double>(ch.choose(3));
+            const double v = (n == poison_at) ? poison : alphabet_value(k.alphabet, ch.choose(3));
             out.evaluated.push_back(idx);
             out.answers.push_back(v);
             values(t) = v;
@@ -227,7 +239,7 @@ bool parse_case(const std::string& s, config_t& k, std::vector<int>& choices, in
     const auto head = s.substr(0, bar);
     char       name[64];
     poison_at = -1, poison_kind = 0;
-    if (std::sscanf(head.c_str(), "%63[^:]:%d:%d:%d:%d:%d", name, &k.grid, &k.scale, &k.max_evals, &poison_at, &poison_kind) < 4)
+    if (std::sscanf(head.c_str(), "%63[^:]:%d:%d:%d:%d:%d:%d", name, &k.grid, &k.scale, &k.max_evals, &k.alphabet, &poison_at, &poison_kind) < 5)
     {
         return false;
     }
@@ -301,7 +313,8 @@ int main(int argc, char** argv)
     r.axis("scales", jstr("linear, log10"));
     r.axis("max_evals", jarr_num(evals));
     r.axis("tuners", jarr_str(tuners));
-    r.axis("value_alphabet", jstr("{0,1,2} for every grid point the tuner queries (lazy: unqueried cells are not branched on)"));
+    r.axis("value_alphabet", jstr("three answers for every grid point the tuner queries (lazy: unqueried cells are not branched on), "
+                                   "from each of the alphabets {0,1,2}, {0,1e-17,2e-17}, {1,1+eps,1+2eps}"));
 
     // configurations are dealt out to the shards, heaviest first so that they spread
     std::vector<config_t> configs;
@@ -313,9 +326,12 @@ int main(int argc, char** argv)
             {
                 for (const auto me : evals)
                 {
-                    config_t c = k;
-                    c.tuner = t, c.grid = static_cast<int>(gi), c.scale = scale, c.max_evals = me;
-                    configs.push_back(c);
+                    for (int alphabet = 0; alphabet < 3; ++alphabet)
+                    {
+                        config_t c = k;
+                        c.tuner = t, c.grid = static_cast<int>(gi), c.scale = scale, c.max_evals = me, c.alphabet = alphabet;
+                        configs.push_back(c);
+                    }
                 }
             }
         }
@@ -359,7 +375,7 @@ int main(int argc, char** argv)
                     }
                     // non-trivial: the landscape has a tie for the minimum (the sort/first-is-minimum clauses are exercised)
                     int    nmin = 0;
-                    double minv = 3;
+                    double minv = std::numeric_limits<double>::max();
                     for (const auto a : run.answers)
                     {
                         minv = std::min(minv, a);
